@@ -6,8 +6,9 @@
    (consumed from both ends; dropped / keep_rest / leaked), extract_if (early drop), split_off,
    extend-with-clones, into_iter (consumed from both ends, then dropped), splice (partially consumed,
    then dropped), map_in_place (closure panicking at any call), append; map, extend with lying size
-   hints, resize_with, dedup_by_key, partition are covered by the implementation-side drop-count
-   monitor only. *)
+   hints, resize_with, dedup_by_key, partition, the allocation helpers and collections of zero-sized
+   elements are covered by implementation-side birth / drop counters; the two zero-sized branches
+   that were defective (Drain::drop, alloc_slice_fill) are modelled in both versions. *)
 From Coq Require Import List Permutation.
 From BS Require Import Colls CollsProofs.
 Import ListNotations.
@@ -53,6 +54,28 @@ Proof. exact append_conserved. Qed.
 Theorem C06_mirrored : forall o input, conserved o input -> conserved (mirror o) input.
 Proof. exact mirror_conserved. Qed.
 
+(* zero-sized element types take branches of their own in two places; both were genuine defects of
+   the pinned commit (repaired in /repo).  The model has both versions: the repaired one conserves,
+   the pinned one is refuted by a computed witness. *)
+Theorem C06_zst_drain_conserved : forall dp l a b kf kb, conserved (op_drain_zst true dp l a b kf kb) l.
+Proof. exact drain_zst_conserved. Qed.
+
+Theorem C06_zst_drain_pinned_refuted :
+  exists l a b kf kb, ~ conserved (op_drain_zst false (fun _ => false) l a b kf kb) l /\
+                      dropped (op_drain_zst false (fun _ => false) l a b kf kb) = [0; 1; 0; 1].
+Proof. exact drain_zst_pinned_refuted. Qed.
+
+Theorem C06_zst_fill_conserved : forall cl ids v,
+  exists done, Permutation (final (op_fill_zst true cl ids v) ++ yielded (op_fill_zst true cl ids v) ++ dropped (op_fill_zst true cl ids v)) (done ++ [v]) /\
+               exists rest, ids = done ++ rest /\ (unwound (op_fill_zst true cl ids v) = false -> rest = []).
+Proof. exact fill_zst_conserved. Qed.
+
+Theorem C06_zst_fill_pinned_refuted :
+  exists cl ids v, unwound (op_fill_zst false cl ids v) = true /\
+    final (op_fill_zst false cl ids v) ++ yielded (op_fill_zst false cl ids v) ++ dropped (op_fill_zst false cl ids v) = [v] /\
+    dropped (op_fill_zst true cl ids v) = [0; 1; v].
+Proof. exact fill_zst_pinned_refuted. Qed.
+
 Print Assumptions C06_conserved_implies_exactly_once.
 Print Assumptions C06_truncate.
 Print Assumptions C06_pop.
@@ -70,3 +93,7 @@ Print Assumptions C06_into_iter.
 Print Assumptions C06_splice.
 Print Assumptions C06_map_in_place.
 Print Assumptions C06_append.
+Print Assumptions C06_zst_drain_conserved.
+Print Assumptions C06_zst_drain_pinned_refuted.
+Print Assumptions C06_zst_fill_conserved.
+Print Assumptions C06_zst_fill_pinned_refuted.
